@@ -75,6 +75,45 @@ func TestC13Schemas(t *testing.T) {
 	})
 }
 
+func TestC13Docs(t *testing.T) {
+	t.Cleanup(closeDocEnv)
+	rapid.Check(t, func(t *rapid.T) {
+		dc := drawDocCase(t)
+		c := Case{Doc: &dc}
+		var o docOutcome
+		f := hx.Guard("C13", func() *hx.Failure { o = runDoc(dc); return nil })
+		if f != nil {
+			o.failures = append(o.failures, f)
+		}
+		labels := []string{"doc", fmt.Sprintf("doc:routes=%d", o.routes)}
+		if o.gqlSkipped {
+			labels = append(labels, "doc:int-beyond-32bit(no-graphql-route)")
+		}
+		if o.nullSwapped {
+			labels = append(labels, "doc:null-written-vs-omitted")
+		}
+		if o.emptyDoc {
+			labels = append(labels, "doc:all-fields-null")
+		}
+		if o.mutation != "" {
+			labels = append(labels, "doc:mutated:"+kindClass(o.mutatedKind)+"/"+o.mutation)
+		}
+		if o.commitRoutes >= 2 {
+			labels = append(labels, "doc:genesis-commits-compared")
+		}
+		for i, fd := range docFields {
+			if i < len(dc.Vals) && !dc.Vals[i].Null {
+				labels = append(labels, "doc:nonnull:"+kindClass(fd.Kind))
+			}
+		}
+		nontrivial := o.nonNull >= 3 && o.routes >= 3 && o.nullSwapped
+		rec.Eval(c, nontrivial, labels...)
+		for _, f := range o.failures {
+			rec.Check(t, c, f)
+		}
+	})
+}
+
 func addInt(v any, n int) int {
 	if x, ok := v.(int); ok {
 		return x + n
